@@ -1170,7 +1170,9 @@ fn gen(a: &Args) {
     for _ in 0..500 * mult {
         o.case("filter");
         let n = r.range(1, 3);
-        let mut l: Vec<Sg> = (0..n).map(|_| rsig(&mut r, false)).collect();
+        // HyperLogLog sketches make load_signatures panic (unimplemented!()): a few, model column only
+        let with_hll = r.chance(1, 25);
+        let mut l: Vec<Sg> = (0..n).map(|_| rsig(&mut r, with_hll)).collect();
         // few distinct ksizes so that filters hit
         let ks = [21u32, 31, 51];
         for s in l.iter_mut() {
